@@ -233,6 +233,22 @@ func zvC26Scenarios() []zvScenario {
 			func() { s.cA.deliver(zvRemoteOpen(s.cfg.A, 0x09090909).bytes()) },
 		}
 	})
+	// establishment first, readers after: one preemption inside the FSM's init() is enough to put a reader in the middle of it
+	mkFrom("R12 keepalive (establishment)||api rib readers||policy replace", []string{evT15, evOpen}, func(s *zvSess) []func() {
+		ip := zvPeerIP(s.cfg.A)
+		return []func(){
+			func() { s.cA.deliver(zvwKeepalive()) },
+			func() {
+				if r := s.w.srv.GetRIBIn(s.w.vrf, ip, packet.AFIIPv4, packet.SAFIUnicast); r != nil {
+					r.Dump()
+				}
+				if r := s.w.srv.GetRIBOut(s.w.vrf, ip, packet.AFIIPv4, packet.SAFIUnicast); r != nil {
+					r.Dump()
+				}
+			},
+			func() { s.w.srv.ReplaceExportFilterChain(s.w.vrf, ip, filter.NewDrainFilterChain()) },
+		}
+	})
 	mkFrom("R9 policy replace||incoming connection||config read", []string{evT15}, func(s *zvSess) []func() {
 		ip := zvPeerIP(s.cfg.A)
 		return []func(){
